@@ -32,7 +32,7 @@ impl PartialEq for DNSClass {
     fn eq(&self, o: &DNSClass) -> (r: bool) { match (*self, *o) { (DNSClass::IN, DNSClass::IN) => true, (DNSClass::CH, DNSClass::CH) => true, (DNSClass::HS, DNSClass::HS) => true,
         (DNSClass::NONE, DNSClass::NONE) => true, (DNSClass::ANY, DNSClass::ANY) => true, (DNSClass::Other(a), DNSClass::Other(b)) => a == b, _ => false } }
 }
-#[derive(Clone, Copy)] pub enum RecordType { ANY, AXFR, IXFR, Other(u16) }
+#[derive(Clone, Copy)] pub enum RecordType { ANY, AXFR, IXFR, SOA, NS, Other(u16) }
 // only what the prescan looks at: an RR without RDATA decodes to Update0, NULL stands for "RDATA of length zero" too
 pub enum RData { Update0(RecordType), NULL(u64), Other(u64) }
 pub struct Name { pub id: u64 }
@@ -71,6 +71,90 @@ impl SqliteZoneHandler {
             // ... and fails with NOTZONE / FORMERR, nothing else
             r matches Err(c) ==> c is NotZone || c is FormErr,
 //%end
+}
+
+// ---- RFC 2136 3.4.2.3, CLASS ANY / TYPE ANY ("delete all RRsets from a name"): the predicate handed to
+//      `records.retain(..)` in SqliteZoneHandler::update_records (expression range of an async fn).
+//      C12: "an accepted message leaves exactly the RRset contents RFC 2136 section 3.4.2 prescribes. After every
+//      message the zone has exactly one SOA and at least one apex NS" ----
+impl vstd::std_specs::cmp::PartialEqSpecImpl for RecordType { open spec fn obeys_eq_spec() -> bool { true } open spec fn eq_spec(&self, o: &RecordType) -> bool { *self == *o } }
+impl PartialEq for RecordType {
+    fn eq(&self, o: &RecordType) -> (r: bool) { match (*self, *o) { (RecordType::ANY, RecordType::ANY) => true, (RecordType::AXFR, RecordType::AXFR) => true, (RecordType::IXFR, RecordType::IXFR) => true,
+        (RecordType::SOA, RecordType::SOA) => true, (RecordType::NS, RecordType::NS) => true, (RecordType::Other(a), RecordType::Other(b)) => a == b, _ => false } }
+}
+#[derive(Clone, Copy)] pub struct LowerName { pub id: u64 }
+impl vstd::std_specs::cmp::PartialEqSpecImpl for LowerName { open spec fn obeys_eq_spec() -> bool { true } open spec fn eq_spec(&self, o: &LowerName) -> bool { self.id == o.id } }
+impl PartialEq for LowerName { fn eq(&self, o: &LowerName) -> (r: bool) { self.id == o.id } }
+pub struct RrKey { pub name: LowerName, pub record_type: RecordType }
+// what the zone keeps when an update RR <rr_name, ANY, ANY> is applied, by key
+fn any_any_keeps(k: &RrKey, rr_name: LowerName, origin: &LowerName) -> (r: bool)
+    ensures
+        // "all Zone RRs with the same NAME are deleted, unless the NAME is the same as ZNAME in which case only those
+        //  RRs whose TYPE is other than SOA or NS are deleted": other names are untouched, and of the RRsets at
+        //  rr_name exactly the apex SOA and apex NS survive
+        r == (k.name.id != rr_name.id || (rr_name.id == origin.id && (k.record_type is SOA || k.record_type is NS))),
+{
+//%expr crates/server/src/store/sqlite/mod.rs :: impl<P: RuntimeProvider + Send + Sync> SqliteZoneHandler<P> :: update_records :: "k.name != rr_name" .. "* origin )"
+//%mutant apex_soa_deleted "k.name == *origin" => "k.name != *origin"
+//%end
+}
+
+// ---- "the SOA serial has strictly advanced if and only if the content changed": update_records returns Ok(updated) and the
+//      caller bumps the serial iff it is true, so `updated` must ACCUMULATE over the update RRs of one message: once a
+//      record changed the zone, a later record that changes nothing must not reset it. Four statement ranges, one per arm. ----
+pub struct VpRecordSet { pub vp: u64 }
+impl VpRecordSet {
+    pub uninterp spec fn view(&self) -> Set<u64>;
+    #[verifier::external_body] pub fn clone(s: &VpRecordSet) -> (r: VpRecordSet) ensures r@ == s@ { unimplemented!() }
+    // RecordSet::remove (proved in unit rrset): true iff something was removed
+    #[verifier::external_body] pub fn remove(&mut self, rr: &Record, serial: u32) -> (r: bool) ensures r == (final(self)@ != old(self)@) { unimplemented!() }
+}
+pub struct VpRecords { pub vp: u64 }
+impl VpRecords {
+    pub uninterp spec fn has(&self, k: RrKey) -> bool;
+    // BTreeMap::remove
+    #[verifier::external_body] pub fn remove(&mut self, k: &RrKey) -> (r: Option<VpRecordSet>)
+        ensures r.is_some() == old(self).has(*k), !final(self).has(*k) { unimplemented!() }
+}
+// class == zone class: "Add to an RRset"
+fn acc_upsert(upserted: bool, updated_in: bool) -> (r: bool)
+    ensures r == (updated_in || upserted)
+{
+    let mut updated = updated_in;
+//%expr crates/server/src/store/sqlite/mod.rs :: impl<P: RuntimeProvider + Send + Sync> SqliteZoneHandler<P> :: update_records :: "updated = upserted" .. "|| updated"
+//%end
+    ;
+    updated
+}
+// class ANY, type ANY: "Delete all RRsets from a name"
+fn acc_delete_name(new_size: usize, old_size: usize, updated_in: bool) -> (r: bool)
+    ensures r == (updated_in || new_size < old_size)
+{
+    let mut updated = updated_in;
+//%expr crates/server/src/store/sqlite/mod.rs :: impl<P: RuntimeProvider + Send + Sync> SqliteZoneHandler<P> :: update_records :: "if new_size < old_size {" .. "}"
+//%end
+    updated
+}
+// class ANY, type T: "Delete an RRset"
+fn acc_delete_rrset(vp_records: &mut VpRecords, rr_key: RrKey, updated_in: bool) -> (r: bool)
+    ensures r == (updated_in || old(vp_records).has(rr_key)), !final(vp_records).has(rr_key),
+{
+    let mut updated = updated_in;
+//%expr crates/server/src/store/sqlite/mod.rs :: impl<P: RuntimeProvider + Send + Sync> SqliteZoneHandler<P> :: update_records :: "let deleted = self.in_memory.records_mut().await.remove(&rr_key);" .. "deleted.is_some();"
+//%sub1 "self.in_memory.records_mut().await.remove(&rr_key)" => "vp_records.remove(&rr_key)" # R-await + R-shim: the write guard of the zone's BTreeMap -> stand-in map
+//%end
+    updated
+}
+// class NONE: "Delete an RR from an RRset"
+fn acc_delete_rr(rrset: &mut VpRecordSet, rr: &Record, serial: u32, updated_in: bool) -> (r: bool)
+    ensures r == (updated_in || final(rrset)@ != old(rrset)@),
+{
+    let mut updated = updated_in;
+//%expr crates/server/src/store/sqlite/mod.rs :: impl<P: RuntimeProvider + Send + Sync> SqliteZoneHandler<P> :: update_records :: "let mut rrset_clone: RecordSet" .. "Arc::new(rrset_clone); }"
+//%sub1 "let mut rrset_clone: RecordSet = RecordSet::clone(&*rrset);" => "let mut rrset_clone: VpRecordSet = VpRecordSet::clone(&*rrset);" # R-shim: RecordSet stand-in
+//%sub1 "Arc::new(rrset_clone)" => "rrset_clone" # R-shim: the Arc around the stored RRset is dropped (copy-on-write of the node)
+//%end
+    updated
 }
 
 } // verus!
